@@ -22,6 +22,7 @@ CHECKS = {
     "C10": ("c10", "model_checking"),
     "C11": ("c11", "model_checking"),
     "C12": ("c12", "model_checking"),
+    "C13": ("c13", "model_checking"),
     "C14": ("c14", "model_checking"),
     "C15": ("c15", "model_checking"),
     "C16": ("c16", "model_checking"),
